@@ -283,9 +283,14 @@ def oracle(program, mods):
             except Exception:
                 pass
         if m.has['udf']:
-            u = iudf.read_udf(Image(final))
+            # (as for pre_clauses above: only what the modification adds; on a hybrid image the cylinder padding follows the last
+            # anchor, so the anchor is looked for at the end of the volume)
+            vol_ = iso9660.read_iso(img0).get('volume_size')
+            last_ = (vol_ - 1) if (m.hybrid is not None and vol_) else None
+            pre_u = set(c for c, _ in (iudf.read_udf(Image(img0), last_sector=last_) or {}).get('findings', []))
+            u = iudf.read_udf(Image(final), last_sector=last_)
             for clause, msg in (u or {}).get('findings', []):
-                if clause not in ('lvid-counts',):
+                if clause not in ('lvid-counts',) and clause not in pre_u:
                     failures.append(('C17/invalid-after-modify/udf/%s' % clause, 'valid-image', msg[:300]))
     return run, failures
 
